@@ -32,11 +32,22 @@ def sboxTab : Array UInt8 := #[
 
 @[inline] def sbox (x : UInt8) : UInt8 := sboxTab.getD x.toNat 0
 
+/-- a 32-bit word kept as its four big-endian bytes: xor is bytewise, so the Feistel inversion argument needs no
+    bit-vector reasoning; only the round function `T` goes through `UInt32` (for the rotations) -/
+structure B4 where
+  a : UInt8
+  b : UInt8
+  c : UInt8
+  d : UInt8
+  deriving DecidableEq, Repr
+
+@[inline] def B4.xor (x y : B4) : B4 := ⟨x.a ^^^ y.a, x.b ^^^ y.b, x.c ^^^ y.c, x.d ^^^ y.d⟩
+
 structure W4 where
-  x0 : UInt32
-  x1 : UInt32
-  x2 : UInt32
-  x3 : UInt32
+  x0 : B4
+  x1 : B4
+  x2 : B4
+  x3 : B4
   deriving DecidableEq, Repr
 
 @[inline] def rotl (x : UInt32) (n : UInt32) : UInt32 := (x <<< n) ||| (x >>> (32 - n))
@@ -44,7 +55,8 @@ structure W4 where
 @[inline] def word (a b c d : UInt8) : UInt32 :=
   (a.toUInt32 <<< 24) ||| (b.toUInt32 <<< 16) ||| (c.toUInt32 <<< 8) ||| d.toUInt32
 
-def unword (w : UInt32) : Bytes := [(w >>> 24).toUInt8, (w >>> 16).toUInt8, (w >>> 8).toUInt8, w.toUInt8]
+@[inline] def B4.toU32 (x : B4) : UInt32 := word x.a x.b x.c x.d
+@[inline] def B4.ofU32 (w : UInt32) : B4 := ⟨(w >>> 24).toUInt8, (w >>> 16).toUInt8, (w >>> 8).toUInt8, w.toUInt8⟩
 
 /-- the non-linear substitution `τ`: S-box on each byte -/
 def tau (x : UInt32) : UInt32 :=
@@ -58,7 +70,10 @@ def tKey (x : UInt32) : UInt32 :=
   let b := tau x
   b ^^^ rotl b 13 ^^^ rotl b 23
 
-def fk : W4 := ⟨0xa3b1bac6, 0x56aa3350, 0x677d9197, 0xb27022dc⟩
+def fk0 : UInt32 := 0xa3b1bac6
+def fk1 : UInt32 := 0x56aa3350
+def fk2 : UInt32 := 0x677d9197
+def fk3 : UInt32 := 0xb27022dc
 
 /-- `CK_i`: bytes `(4i+j)·7 mod 256` -/
 def ck (i : Nat) : UInt32 :=
@@ -69,23 +84,26 @@ def normBlock (b : Bytes) : Bytes := (b ++ List.replicate 16 0).take 16
 
 def toW4 : Bytes → W4
   | [s0, s1, s2, s3, s4, s5, s6, s7, s8, s9, s10, s11, s12, s13, s14, s15] =>
-    ⟨word s0 s1 s2 s3, word s4 s5 s6 s7, word s8 s9 s10 s11, word s12 s13 s14 s15⟩
-  | _ => ⟨0, 0, 0, 0⟩
+    ⟨⟨s0, s1, s2, s3⟩, ⟨s4, s5, s6, s7⟩, ⟨s8, s9, s10, s11⟩, ⟨s12, s13, s14, s15⟩⟩
+  | _ => ⟨⟨0, 0, 0, 0⟩, ⟨0, 0, 0, 0⟩, ⟨0, 0, 0, 0⟩, ⟨0, 0, 0, 0⟩⟩
 
-def ofW4 (x : W4) : Bytes := unword x.x0 ++ (unword x.x1 ++ (unword x.x2 ++ unword x.x3))
+def ofW4 (x : W4) : Bytes :=
+  [x.x0.a, x.x0.b, x.x0.c, x.x0.d, x.x1.a, x.x1.b, x.x1.c, x.x1.d,
+   x.x2.a, x.x2.b, x.x2.c, x.x2.d, x.x3.a, x.x3.b, x.x3.c, x.x3.d]
 
-/-- round keys `rk_0 … rk_31` -/
-def roundKeysAux : Nat → Nat → W4 → List UInt32
-  | 0, _, _ => []
-  | n + 1, i, k =>
-    let rk := k.x0 ^^^ tKey (k.x1 ^^^ k.x2 ^^^ k.x3 ^^^ ck i)
-    rk :: roundKeysAux n (i + 1) ⟨k.x1, k.x2, k.x3, rk⟩
+/-- round keys `rk_0 … rk_31` (key schedule entirely on `UInt32`) -/
+def roundKeysAux : Nat → Nat → UInt32 → UInt32 → UInt32 → UInt32 → List UInt32
+  | 0, _, _, _, _, _ => []
+  | n + 1, i, k0, k1, k2, k3 =>
+    let rk := k0 ^^^ tKey (k1 ^^^ k2 ^^^ k3 ^^^ ck i)
+    rk :: roundKeysAux n (i + 1) k1 k2 k3 rk
 
 def roundKeys (key : Bytes) : List UInt32 :=
   let mk := toW4 (normBlock key)
-  roundKeysAux 32 0 ⟨mk.x0 ^^^ fk.x0, mk.x1 ^^^ fk.x1, mk.x2 ^^^ fk.x2, mk.x3 ^^^ fk.x3⟩
+  roundKeysAux 32 0 (mk.x0.toU32 ^^^ fk0) (mk.x1.toU32 ^^^ fk1) (mk.x2.toU32 ^^^ fk2) (mk.x3.toU32 ^^^ fk3)
 
-def round (x : W4) (rk : UInt32) : W4 := ⟨x.x1, x.x2, x.x3, x.x0 ^^^ tEnc (x.x1 ^^^ x.x2 ^^^ x.x3 ^^^ rk)⟩
+def round (x : W4) (rk : UInt32) : W4 :=
+  ⟨x.x1, x.x2, x.x3, x.x0.xor (B4.ofU32 (tEnc (((x.x1.xor x.x2).xor x.x3).toU32 ^^^ rk)))⟩
 
 def rev (x : W4) : W4 := ⟨x.x3, x.x2, x.x1, x.x0⟩
 
